@@ -180,7 +180,7 @@ open Falcon.CfgEdit Falcon.Assemble in
 /-- the executable checks of the driver mean what they say -/
 theorem asm_merged_checks {tb tb' : List (Nat × BTR)} {manual : List ManualEdge} {σ : State} {c : Expr} :
     (mergedOfB tb tb' manual = true → MergedOf tb tb' manual) ∧ (guardBitB σ c = true ↔ GuardBit σ c) ∧
-    (∀ a, graphAt (normalize tb) a = graphAt tb a) :=
-  ⟨C06Asm.mergedOfB_sound, C06Asm.guardBitB_iff σ c, C06Asm.graphAt_normalize tb⟩
+    (tb'.map (·.2.instrs) = tb.map (·.2.instrs) → ∀ a, graphAt tb' a = graphAt tb a) :=
+  ⟨C06Asm.mergedOfB_sound, C06Asm.guardBitB_iff σ c, C06Asm.graphAt_of_instrs⟩
 
 end Falcon.C06
